@@ -5,7 +5,9 @@ package main
 import (
 	"encoding/json"
 	"fmt"
+	"net"
 	"os"
+	"time"
 	"runtime/debug"
 
 	"verifmc/checks"
@@ -18,6 +20,12 @@ func main() {
 		os.Exit(2)
 	}
 	debug.SetGCPercent(400)
+	// Make the Go runtime create its own netpoller descriptors (epoll + eventfd, created lazily by the
+	// first timer) now, before any check reasons about descriptor numbers.
+	time.Sleep(time.Millisecond)
+	if c, err := net.Listen("tcp", "127.0.0.1:0"); err == nil {
+		c.Close()
+	}
 	id, mode := os.Args[1], os.Args[2]
 	c, ok := checks.Registry[id]
 	if !ok {
